@@ -302,6 +302,76 @@ let decode_mode path =
    with End_of_file -> ());
   close_in ic
 
+(* ---------- front-end AST (Gen model) ---------- *)
+let rec aexpr_of = function
+  | L [A "lit"; v; ic] -> ALit (hexb v, bool_a ic)
+  | L [A "cls"; raw; L (A "chars" :: cs); L (A "ranges" :: rs); L (A "classes" :: cls); ic; inv] ->
+      ACls (hexb raw, List.map (fun r -> z_of_int (int_a r)) cs, List.map (fun r -> z_of_int (int_a r)) rs,
+            List.map hexb cls, bool_a ic, bool_a inv)
+  | L [A "any"] -> AAny
+  | L (A "seq" :: n :: es) -> ASeq (n_of_int (int_a n), List.map aexpr_of es)
+  | L (A "alt" :: n :: es) -> AAlt (n_of_int (int_a n), List.map aexpr_of es)
+  | L [A "star"; e] -> AStar (aexpr_of e)
+  | L [A "plus"; e] -> APlus (aexpr_of e)
+  | L [A "opt"; e] -> AOpt (aexpr_of e)
+  | L [A "and"; e] -> AAnd (aexpr_of e)
+  | L [A "not"; e] -> ANot (aexpr_of e)
+  | L [A "lab"; l; e] -> ALab (hexb l, aexpr_of e)
+  | L [A "act"; n; c; e] -> AAct (n_of_int (int_a n), hexb c, aexpr_of e)
+  | L [A "andc"; c] -> AAndC (hexb c)
+  | L [A "notc"; c] -> ANotC (hexb c)
+  | L [A "stc"; c] -> AStC (hexb c)
+  | L [A "ref"; n; r] -> ARef (n_of_int (int_a n), hexb r)
+  | L (A "rec" :: n :: e :: rc :: ls) -> ARec (n_of_int (int_a n), aexpr_of e, aexpr_of rc, List.map hexb ls)
+  | L [A "throw"; l] -> AThrow (hexb l)
+  | _ -> failwith "bad aexpr"
+
+let agrammar_of = function
+  | L (A "ast" :: rules) ->
+      List.map (function
+          | L [A "rule"; nm; dn; e] -> { a_name = hexb nm; a_display = hexb dn; a_expr = aexpr_of e }
+          | _ -> failwith "bad arule") rules
+  | _ -> failwith "bad ast"
+
+let pq = ref { pq_inner = false; pq_pred = false; pq_short = true }   (* faithful: after fix 46465c9 the flags below ? * + are computed *)
+let set_pq (b : String.t) = pq := { pq_inner = (String.length b > 0 && b.[0] = '1'); pq_pred = (String.length b > 1 && b.[1] = '1'); pq_short = (String.length b > 2 && b.[2] = '1') }
+
+let rec perms = function
+  | [] -> [[]]
+  | l -> List.concat_map (fun x -> List.map (fun p -> x :: p) (perms (List.filter (fun y -> y != x) l))) l
+
+let show_prep = function
+  | PrepNoLeader -> "noleader"
+  | PrepOk (have, lrs, leaders) ->
+      let names l = String.concat "," (List.sort_uniq compare (List.map str_of_bytes l)) in
+      Printf.sprintf "ok have=%s lr=%s leaders=%s" (if have then "1" else "0") (names lrs) (names leaders)
+
+(* -prep: lines "ID|<ast sexp>|..."; prints ID|model outcomes over all iteration orders|spec verdicts *)
+let prep_mode path =
+  let ic = open_in path in
+  (try
+     while true do
+       let line = input_line ic in
+       match String.split_on_char '|' line with
+       | id :: ast :: _ ->
+           (match parse_sexps ast with
+            | [sx] ->
+                let g = agrammar_of sx in
+                let names = List.sort_uniq compare (List.map (fun r -> r.a_name) g) in
+                let ps = if List.length names <= 5 then perms names
+                  else List.init 200 (fun _ -> List.map snd (List.sort compare (List.map (fun x -> (Random.bits (), x)) names))) in
+                let fuel = nat_of_int 2000 in
+                let outs = List.sort_uniq compare (List.map (fun p -> show_prep (prepare !pq g fuel p)) ps) in
+                let b x = if x then "1" else "0" in
+                Printf.printf "%s|%s|nopred=%s pred=%s throw=%s|lr_nopred=%s\n" id (String.concat ";" outs)
+                  (b (lr_cycle g false false)) (b (lr_cycle g true false)) (b (lr_cycle g true true))
+                  (String.concat "," (List.sort compare (List.map str_of_bytes (lr_rules g false false))))
+            | _ -> ())
+       | _ -> ()
+     done
+   with End_of_file -> ());
+  close_in ic
+
 (* -bl: lines "hexraw|chars|ranges|classes|ic|inv"; prints the model's Basic-Latin table and
    whether it agrees with the general matching procedure on all 128 runes *)
 let bl_mode path =
@@ -322,9 +392,11 @@ let bl_mode path =
   close_in ic
 
 let () =
-  let tables = ref "" and cases = ref "" and fuel = ref 4000 and dec = ref "" and bl = ref "" in
+  let tables = ref "" and cases = ref "" and fuel = ref 4000 and dec = ref "" and bl = ref "" and prep = ref "" in
   Arg.parse [ ("-tables", Arg.Set_string tables, "unicode tables file");
               ("-cases", Arg.Set_string cases, "case file");
+              ("-pq", Arg.String set_pq, "analysis quirks, 2 bits: nullable_inner pred_first (default 01 = current tree: nullable_inner repaired by fix 46465c9)");
+              ("-prep", Arg.Set_string prep, "file of grammars: PrepareGrammar model over all iteration orders + LRSpec");
               ("-bl", Arg.Set_string bl, "file of classes: print Basic-Latin tables of the model");
               ("-decode", Arg.Set_string dec, "file of hex strings: print decode results");
               ("-quirks", Arg.String set_quirks, "4 bits: lit_eof stale_ctx recover_scope memo_nocharge (default 1111 = faithful)");
@@ -333,6 +405,7 @@ let () =
   if !dec <> "" then (decode_mode !dec; exit 0);
   if !tables <> "" then load_tables !tables;
   if !bl <> "" then (bl_mode !bl; exit 0);
+  if !prep <> "" then (Random.init 7; prep_mode !prep; exit 0);
   if !tables <> "" then load_tables !tables;
   let ic = open_in_bin !cases in
   (try
